@@ -248,12 +248,51 @@ def exc_kind(e):
     return type(e).__name__
 
 
+NOISE = {"decls": [], "calls": []}
+
+
+def settle_noise(noise, parse):
+    """keep the noise statements the current parser accepts (each is tried after the ones already kept)"""
+    NOISE["decls"], NOISE["calls"] = [], []
+    for d in noise.get("decls", []):
+        try:
+            parse("\n".join(NOISE["decls"] + [d]) + "\n")
+            NOISE["decls"].append(d)
+        except Exception:  # noqa: BLE001
+            pass
+    for c in noise.get("calls", []):
+        try:
+            parse("\n".join(NOISE["decls"] + ["for q in range(2):"] + ["    " + x for x in NOISE["calls"] + [c]]) + "\n")
+            NOISE["calls"].append(c)
+        except Exception:  # noqa: BLE001
+            pass
+
+
+def in_context(spec, call_line, ctx):
+    """the call under test as the LAST statement of a nested block that first runs fully-spelled calls on other
+    devices (binding must not depend on what was parsed before it)"""
+    body = NOISE["calls"] + [call_line]
+    ind = ["    " + x for x in body]
+    head = {"for": ["for q in range(2):"], "loop": ["while True:"], "if": ["q = analog_read(0)", "if q >= 0:"],
+            "try": ["try:"]}[ctx]
+    tail = ["except Exception:", "    pass"] if ctx == "try" else []
+    return "\n".join(spec["pre"] + NOISE["decls"] + head + ind + tail) + "\n"
+
+
 def run_case(case, parse):
     spec = ROWS[case["row"]]
     pos = list(case["pos"])
     kws = [tuple(k) for k in case["kws"]]
-    argtext = ", ".join(pos + [f"{k}={v}" for k, v in kws])
+    # optional spacing inside the call (Python's tokenizer ignores it; the property quantifies over it)
+    sp = int(case.get("sp", 0) or 0)
+    eq = {0: "=", 1: " = ", 2: " =", 3: "= "}[sp]
+    sep = {0: ", ", 1: ", ", 2: " , ", 3: ",  "}[sp]
+    argtext = sep.join(pos + [f"{k}{eq}{v}" for k, v in kws])
+    if sp == 3 and argtext:
+        argtext = " " + argtext + " "
     script = "\n".join(spec["pre"] + [spec["call"].format(a=argtext)]) + "\n"
+    if case.get("ctx"):
+        script = in_context(spec, spec["call"].format(a=argtext), case["ctx"])
     res = {"script": script}
     # ---- Python's own binder on the real callable (values = the source literals themselves)
     obj = resolve(spec["target"])
@@ -293,10 +332,10 @@ def run_case(case, parse):
         return res
     if spec["node"] == "serial_read":
         hits = [n for n in nodes if type(n).__name__ == "ExprStmt"]
-        if len(hits) != 1:
+        if not hits or (len(hits) != 1 and not case.get("ctx")):
             res.update(status="no-node", seen=sorted({type(n).__name__ for n in nodes}))
             return res
-        e = hits[0].expr
+        e = hits[-1].expr   # in a context script the call under test is the last statement
         res.update(status="ok", fields={"emit": {"serial_read_expr": e}})
         return res
     hits = [n for n in nodes if type(n).__name__ == spec["node"] and getattr(n, "name", None) == "dev"]
@@ -331,8 +370,10 @@ def main():
         json.dump(out, sys.stdout)
         return
     from Reduino.transpile.parser import parse
+    if req.get("noise"):
+        settle_noise(req["noise"], parse)
     out = [run_case(c, parse) for c in req["cases"]]
-    json.dump(out, sys.stdout)
+    json.dump({"results": out, "noise_kept": dict(NOISE)} if req.get("noise") else out, sys.stdout)
 
 
 if __name__ == "__main__":
